@@ -188,7 +188,19 @@ class CallMixin(ExprMixin):
             return self.apply_contract(st, ctx, fi, c, args, kwargs, line)
         if fi.trusted:
             self.trusted_used.add(key)
-            return self.inline_call(st, ctx, fi, args, kwargs, line, env)
+            top = self.top_ctx if self.top_ctx is not None else ctx
+            hinted = top.contract is not None and any(
+                top.contract.env.get(k_, {}).get(fi.qualname) or top.contract.env.get(k_, {}).get(fi.name) for k_ in ("call_hints", "ghost_capture"))
+            if not hinted:
+                return self.inline_call(st, ctx, fi, args, kwargs, line, env)
+            # a stub (trusted model code) named in the caller's hints: the hints are owed after it returns, like for a callee under contract
+            pre_state = st.clone()
+            out = []
+            for s2, r in self.inline_call(st, ctx, fi, args, kwargs, line, env):
+                if not isinstance(r, Raise):
+                    self.apply_call_hints(s2, ctx, fi, pre_state, r, line, None)
+                out.append((s2, r))
+            return out
         if key in self.R.inline or isinstance(fi.node, ast.Lambda) or ".<locals>." in fi.qualname or self.is_trivial(fi):
             self.inlined.add(key)
             return self.inline_call(st, ctx, fi, args, kwargs, line, env)
